@@ -10,9 +10,10 @@
 (*   Dispatch ...         (not judged here; C09 reads it)                                        *)
 (*   Res req kind ret bytes [before]   result of request number req                              *)
 (* Obligations:                                                                                  *)
-(*   Lookup   the hit index and the chosen (implementation, function) are what Dispatch.tla      *)
-(*            yields for that thread's cache history on the dumped tables; a cache address       *)
-(*            belongs to exactly one thread.                                                     *)
+(*   Lookup   the chosen (implementation, function) is an entry of the dumped tables that        *)
+(*            matches the key; a cache address belongs to exactly one thread.  Whether the        *)
+(*            answer is the first match and the hit index the one of the MRU policy of           *)
+(*            Dispatch.tla is reported, not required.                                            *)
 (*   Validate a worker thread never finds a shared image dirty (it would write it).              *)
 (*   RefShared a worker thread never changes the reference count of a shared image.              *)
 (*   Res      every execution of request req -- under any configuration, from any thread -- leaves *)
@@ -21,13 +22,14 @@
 EXTENDS Dispatch, TraceIO, SequencesExt
 
 VARIABLES l, tables, anyOp, anyFmt,
-          caches,     \* cache address -> cache contents
+          caches,     \* cache address -> cache contents under the most-recently-used policy of Dispatch.tla
+          mru,        \* TRUE while every lookup so far is the one the policy of Dispatch.tla predicts (informational)
           owner,      \* cache address -> tid
           shared,     \* set of shared image addresses
           livethr,    \* set of live worker threads
           ref         \* req -> bytes of the first execution seen (persists across configurations)
 
-tvars == <<l, tables, anyOp, anyFmt, caches, owner, shared, livethr, ref>>
+tvars == <<l, tables, anyOp, anyFmt, caches, mru, owner, shared, livethr, ref>>
 
 Ev == TraceLog[l]
 Is(e) == l <= TraceLen /\ TraceLog[l].e = e
@@ -40,46 +42,65 @@ KeyOf(e) == [op |-> e.op, sf |-> e.sf, mf |-> e.mf, df |-> e.df,
              sfl |-> SetOf(e.sfl), mfl |-> SetOf(e.mfl), dfl |-> SetOf(e.dfl)]
 
 TReset == /\ Is("Reset")
-          /\ tables' = <<>> /\ anyOp' = 0 /\ anyFmt' = <<>> /\ caches' = <<>> /\ owner' = <<>>
+          /\ tables' = <<>> /\ anyOp' = 0 /\ anyFmt' = <<>> /\ caches' = <<>> /\ mru' = mru /\ owner' = <<>>
           /\ shared' = {} /\ livethr' = {} /\ UNCHANGED ref /\ Adv
 
 TTables == /\ Is("Tables")
            /\ tables' = [i \in DOMAIN Ev.imps |-> [j \in DOMAIN Ev.imps[i] |-> Entry(Ev.imps[i][j])]]
            /\ anyOp' = Ev.any_op /\ anyFmt' = Ev.any_fmt
-           /\ UNCHANGED <<caches, owner, shared, livethr, ref>> /\ Adv
+           /\ UNCHANGED <<caches, mru, owner, shared, livethr, ref>> /\ Adv
 
 TSpawn == /\ Is("Spawn") /\ livethr' = livethr \cup {Ev.tid}
-          /\ UNCHANGED <<tables, anyOp, anyFmt, caches, owner, shared, ref>> /\ Adv
+          /\ UNCHANGED <<tables, anyOp, anyFmt, caches, mru, owner, shared, ref>> /\ Adv
 TJoin  == /\ Is("Join") /\ livethr' = livethr \ {Ev.tid}
-          /\ UNCHANGED <<tables, anyOp, anyFmt, caches, owner, shared, ref>> /\ Adv
+          /\ UNCHANGED <<tables, anyOp, anyFmt, caches, mru, owner, shared, ref>> /\ Adv
 TShared == /\ Is("Shared") /\ shared' = SetOf(Ev.imgs)
-           /\ UNCHANGED <<tables, anyOp, anyFmt, caches, owner, livethr, ref>> /\ Adv
+           /\ UNCHANGED <<tables, anyOp, anyFmt, caches, mru, owner, livethr, ref>> /\ Adv
+
+(* The fast-path cache is judged at the level the properties state (C02: the same pixels whichever implementation *)
+(* serves; C16: no interference between threads).  Every table entry must be correct for every key it matches - the  *)
+(* order of the tables and the cache only decide which of the correct routines is preferred - so, whatever the size, *)
+(* layout, replacement policy and key comparison of the cache:                                                       *)
+(*   - the routine returned for a key is that of an entry, in the implementation returned, which MATCHES the key     *)
+(*     (a routine handed a request its entry does not describe is what changes pixels);                              *)
+(*   - a cache belongs to one thread and a thread has one cache.                                                     *)
+(* That the pixels do not depend on the choice is judged on the Res events.  The policy of the current code          *)
+(* (Dispatch.tla: first match in chain order behind a most-recently-used cache compared by key equality) is tracked  *)
+(* next to it and a departure from it is reported, not rejected: `mru` = every hit index so far is the one that      *)
+(* policy predicts and every answer the first match.                                                                 *)
+ServedBy(imp, func, key) ==
+    /\ imp \in DOMAIN tables
+    /\ \E j \in DOMAIN tables[imp] : tables[imp][j].func = func /\ Matches(tables[imp][j], key, anyOp, anyFmt)
 
 TLookup ==
     /\ Is("Lookup")
     /\ LET a == Ev.cache
            c == IF a \in DOMAIN caches THEN caches[a] ELSE <<>>
            key == KeyOf(Ev)
+           exact == /\ mru
+                    /\ Ev.hit = HitIndex(c, key) - 1
+                    /\ <<Ev.imp, Ev.func>> = TableWalk(tables, key, anyOp, anyFmt)
        IN  /\ (a \in DOMAIN owner) => owner[a] = Ev.tid                    \* one cache per thread ...
            /\ \A b \in DOMAIN owner : owner[b] = Ev.tid => b = a             \* ... and one thread per cache
-           /\ Ev.hit = HitIndex(c, key) - 1
-           /\ <<Ev.imp, Ev.func>> = LookupResult(c, tables, key, anyOp, anyFmt)
            /\ Ev.imp # 0
-           /\ caches' = (a :> LookupCache(c, tables, key, anyOp, anyFmt)) @@ caches
+           /\ ServedBy(Ev.imp, Ev.func, key)
+           /\ mru' = exact
+           /\ (mru /\ ~exact) => PrintT(<<"VF:policy", "lookup departs from the first-match / most-recently-used policy modelled in Dispatch.tla, first at event", l>>)
+           /\ caches' = IF exact THEN (a :> LookupCache(c, tables, key, anyOp, anyFmt)) @@ caches ELSE caches
            /\ owner' = (a :> Ev.tid) @@ owner
     /\ UNCHANGED <<tables, anyOp, anyFmt, shared, livethr, ref>> /\ Adv
 
 TValidate == /\ Is("Validate")
              /\ (Ev.tid # 0 /\ Ev.img \in shared) => ~Ev.dirty
-             /\ UNCHANGED <<tables, anyOp, anyFmt, caches, owner, shared, livethr, ref>> /\ Adv
+             /\ UNCHANGED <<tables, anyOp, anyFmt, caches, mru, owner, shared, livethr, ref>> /\ Adv
 
 (* a change of the reference count of a shared image (hook H4, reported for shared images only) is a write to  *)
 (* that image: only the main thread may do it                                                                  *)
 TRefShared == /\ Is("RefShared") /\ Ev.tid = 0
-              /\ UNCHANGED <<tables, anyOp, anyFmt, caches, owner, shared, livethr, ref>> /\ Adv
+              /\ UNCHANGED <<tables, anyOp, anyFmt, caches, mru, owner, shared, livethr, ref>> /\ Adv
 
 TDispatch == /\ Is("Dispatch")
-             /\ UNCHANGED <<tables, anyOp, anyFmt, caches, owner, shared, livethr, ref>> /\ Adv
+             /\ UNCHANGED <<tables, anyOp, anyFmt, caches, mru, owner, shared, livethr, ref>> /\ Adv
 
 TRes ==
     /\ Is("Res")
@@ -93,9 +114,9 @@ TRes ==
                  /\ ref' = IF r \in DOMAIN ref THEN ref ELSE (r :> Ev.bytes) @@ ref
             ELSE /\ Ev.bytes = Ev.before
                  /\ UNCHANGED ref
-    /\ UNCHANGED <<tables, anyOp, anyFmt, caches, owner, shared, livethr>> /\ Adv
+    /\ UNCHANGED <<tables, anyOp, anyFmt, caches, mru, owner, shared, livethr>> /\ Adv
 
-TInit == /\ l = 1 /\ tables = <<>> /\ anyOp = 0 /\ anyFmt = <<>> /\ caches = <<>> /\ owner = <<>>
+TInit == /\ l = 1 /\ tables = <<>> /\ anyOp = 0 /\ anyFmt = <<>> /\ caches = <<>> /\ mru = TRUE /\ owner = <<>>
          /\ shared = {} /\ livethr = {} /\ ref = <<>>
 TNext == TReset \/ TTables \/ TSpawn \/ TJoin \/ TShared \/ TLookup \/ TValidate \/ TRefShared \/ TDispatch \/ TRes
 TSpec == TInit /\ [][TNext]_tvars
